@@ -122,3 +122,152 @@ func init() {
 		externals[k] = v
 	}
 }
+
+// ---------------------------------------------------------------- AEAD / KDF models
+
+type sealRec struct {
+	box, nonce, key, msg []value
+}
+
+type kdfRec struct {
+	in  []value // password ‖ 0xff.. ‖ salt with lengths
+	lp  int
+	out []value
+	par string
+}
+
+func allConcrete(vs ...[]value) bool {
+	for _, v := range vs {
+		for _, e := range v {
+			if _, ok := e.(uint8); !ok {
+				return false
+			}
+		}
+	}
+	return true
+}
+
+// bytesEqTerm builds the conjunction a == b (lengths equal).
+func (i *interpreter) bytesEqTerm(a, b []value) *Term {
+	acc := i.tt.Bool(true)
+	for k := range a {
+		acc = i.tt.BAnd(acc, i.tt.Cmp(OpEq, i.lift(a[k]), i.lift(b[k])))
+		if acc.IsFalse() {
+			return acc
+		}
+	}
+	return acc
+}
+
+func init() {
+	externals["golang.org/x/crypto/nacl/secretbox.Seal"] = func(fr *frame, a []value) value {
+		i := fr.i
+		out, _ := a[0].([]value)
+		msg := a[1].([]value)
+		nonce := []value((*a[2].(*value)).(array))
+		key := []value((*a[3].(*value)).(array))
+		var box []value
+		if allConcrete(msg, nonce, key) {
+			m, _ := bytesOf(msg)
+			var n [24]byte
+			var k [32]byte
+			nb, _ := bytesOf(nonce)
+			kb, _ := bytesOf(key)
+			copy(n[:], nb)
+			copy(k[:], kb)
+			box = valuesOf(nativeSeal(m, &n, &k))
+		} else {
+			// ideal AEAD: fresh bytes of length len(m)+16
+			box = make([]value, len(msg)+16)
+			for k := range box {
+				box[k] = i.nondet("box", 8)
+			}
+		}
+		i.seals = append(i.seals, sealRec{box: box, nonce: append([]value{}, nonce...), key: append([]value{}, key...), msg: append([]value{}, msg...)})
+		return appendValues(out, box)
+	}
+	externals["golang.org/x/crypto/nacl/secretbox.Open"] = func(fr *frame, a []value) value {
+		i := fr.i
+		out, _ := a[0].([]value)
+		box := a[1].([]value)
+		nonce := []value((*a[2].(*value)).(array))
+		key := []value((*a[3].(*value)).(array))
+		if len(box) < 16 {
+			return tuple{[]value(nil), false}
+		}
+		// a recorded seal with the same (box, nonce, key)? decided symbolically
+		for _, r := range i.seals {
+			if len(r.box) != len(box) {
+				continue
+			}
+			eq := i.tt.BAnd(i.bytesEqTerm(box, r.box), i.tt.BAnd(i.bytesEqTerm(nonce, r.nonce), i.bytesEqTerm(key, r.key)))
+			if i.decide(eq) {
+				return tuple{appendValues(out, r.msg), true}
+			}
+		}
+		if allConcrete(box, nonce, key) {
+			bb, _ := bytesOf(box)
+			var n [24]byte
+			var k [32]byte
+			nb, _ := bytesOf(nonce)
+			kb, _ := bytesOf(key)
+			copy(n[:], nb)
+			copy(k[:], kb)
+			if m, ok := nativeOpen(bb, &n, &k); ok {
+				return tuple{appendValues(out, valuesOf(m)), true}
+			}
+		}
+		// ideal AEAD: anything that was not sealed does not authenticate
+		return tuple{[]value(nil), false}
+	}
+	externals["golang.org/x/crypto/scrypt.Key"] = func(fr *frame, a []value) value {
+		i := fr.i
+		pw, _ := a[0].([]value)
+		salt, _ := a[1].([]value)
+		N, okN := a[2].(int)
+		r, okR := a[3].(int)
+		p, okP := a[4].(int)
+		keyLen, okL := a[5].(int)
+		if !okN || !okR || !okP || !okL {
+			i.unsupported("scrypt with symbolic cost parameters")
+		}
+		if allConcrete(pw, salt) {
+			pb, _ := bytesOf(pw)
+			sb, _ := bytesOf(salt)
+			out, err := nativeScrypt(pb, sb, N, r, p, keyLen)
+			if err != nil {
+				return tuple{[]value(nil), i.nativeErr(err)}
+			}
+			res := valuesOf(out)
+			i.kdfs = append(i.kdfs, kdfRec{in: append(append([]value{}, pw...), salt...), lp: len(pw), out: res, par: fmt.Sprint(N, r, p, keyLen)})
+			return tuple{res, iface{}}
+		}
+		if _, err := nativeScrypt(nil, nil, N, r, p, keyLen); err != nil {
+			return tuple{[]value(nil), i.nativeErr(err)}
+		}
+		in := append(append([]value{}, pw...), salt...)
+		par := fmt.Sprint(N, r, p, keyLen)
+		// same input as an earlier call? decided symbolically
+		for _, rec := range i.kdfs {
+			if rec.par != par || rec.lp != len(pw) || len(rec.in) != len(in) {
+				continue
+			}
+			if i.decide(i.bytesEqTerm(in, rec.in)) {
+				return tuple{append([]value{}, rec.out...), iface{}}
+			}
+		}
+		out := make([]value, keyLen)
+		for k := range out {
+			out[k] = i.nondet("kdf", 8)
+		}
+		// collision-freeness: differs from every earlier output
+		for _, rec := range i.kdfs {
+			if len(rec.out) == len(out) {
+				i.assume(i.tt.BNot(i.bytesEqTerm(out, rec.out)))
+			}
+		}
+		i.kdfs = append(i.kdfs, kdfRec{in: in, lp: len(pw), out: out, par: par})
+		i.stubsHit["scrypt(ideal KDF on symbolic input)"]++
+		return tuple{append([]value{}, out...), iface{}}
+	}
+}
